@@ -143,7 +143,15 @@ class Live:
                        for e in contents.elements if e.element_type is ElementType.INSTRUCTION]
         act_instrs = [e.instruction_info.instruction for e in doc.act_phase.elements
                       if e.element_type is ElementType.INSTRUCTION]
-        atc = self.actor.parse(act_instrs)
+        # the actor is the one the [conf] phase configures (its instructions are run against a ConfigurationBuilder,
+        # as full_execution does), else the default one
+        from exactly_lib.test_case.phases.configuration import ConfigurationBuilder
+        from exactly_lib.util.name_and_value import NameAndValue
+        cb = ConfigurationBuilder(pathlib.Path(self.home), pathlib.Path(self.home), NameAndValue('default', self.actor))
+        for e in doc.configuration_phase.elements:
+            if e.element_type is ElementType.INSTRUCTION:
+                e.instruction_info.instruction.main(cb)
+        atc = cb.actor.value.parse(act_instrs)
         out['act'] = [(None, list(atc.symbol_usages()))]
         return out
 
@@ -217,6 +225,7 @@ class Gen:
         self.rng, self.live = rng, live
         self.defined = []  # (name, type id) of the definitions so far in execution order
         self.fileno = 0
+        self.norun = set()
         self.clean = rng.chance(0.5)  # no deliberate violation: every hole gets a well-typed earlier symbol
 
     def fresh_file(self):
@@ -225,6 +234,14 @@ class Gen:
 
     # -- choice of a symbol for a hole that wants one of the type ids in `want`
     def pick(self, want, mode=None):
+        n = self.pick0(want, mode)
+        if 'program' in want and n in self.norun:
+            # a program whose arguments demand existing files must never be run: only a name that is not one of those
+            rest = [m for m in NAME_POOL if m not in self.norun]
+            return None if self.clean or not rest else self.rng.choice(rest)
+        return n
+
+    def pick0(self, want, mode=None):
         rng = self.rng
         r = rng.below(100) if mode is None else mode
         good = [n for n, t in self.defined if t in want]
@@ -377,7 +394,7 @@ class Gen:
             name = rng.choice(self.live.builtin_names)  # duplicate of a builtin
         else:
             name = rng.choice(NAME_POOL)
-        tid = rng.weighted([('string', 26), ('list', 16), ('path', 22)] + [(t, 4) for t in LOGIC_CONST])
+        tid = rng.weighted([('string', 26), ('list', 16), ('path', 22)] + [(t, 8 if t == 'program' else 4) for t in LOGIC_CONST])
         if tid == 'string':
             fr = self.gen_frags()
             ins = dict(kind='def', name=name, tid=tid, src='def string %s = %s' % (name, frags_src(fr)), val=('str', fr))
@@ -394,6 +411,8 @@ class Gen:
         elif tid == 'path':
             src, ast = self.gen_path()
             ins = dict(kind='def', name=name, tid=tid, src='def path %s = %s' % (name, src), val=ast)
+        elif tid == 'program' and rng.chance(0.6):
+            ins = self.gen_program_with_arguments(name)
         else:
             if rng.chance(0.45):
                 txt, names = LOGIC_CONST[tid], []
@@ -433,6 +452,87 @@ class Gen:
             fr = self.gen_frags(n_max=4)
             return dict(kind='use', src='file %s = %s' % ('{FILE}', frags_src(fr)), vals=[('str', fr)], file=True)
         return dict(kind='use', src=txt, vals=[], names=names, only=phases)
+
+    def gen_arg_elements(self, n_lo=0, n_hi=4):
+        rng = self.rng
+        els = []
+        for k in range(rng.randint(n_lo, n_hi)):
+            if rng.chance(0.5):
+                els.append(('r', self.pick(('string', 'list', 'path'))))
+            else:
+                els.append(('e', self.gen_frags(n_max=2)))
+        return [e for e in els if e[1] is not None]
+
+    def gen_program_with_arguments(self, name):
+        """def program NAME = % echo ARGUMENT...  where the SAME symbol may stand at several positions that demand
+        different things of it: a naked / quoted argument (any string-rendered type), the path of `-existing-path -rel-X`
+        (a path component: string), the SYMBOL of `-existing-path -rel SYMBOL` (a path).
+        The definition is never run: only its references matter."""
+        rng = self.rng
+        items, src_refs, names = [], [], []
+        again = None
+        for k in range(rng.randint(2, 4)):
+            form = rng.weighted([('r', 30), ('e', 25), ('xp', 30), ('rs', 15)])
+            reuse = again is not None and rng.chance(0.6)
+            if form == 'r':
+                n = again if reuse else self.pick(('string', 'list', 'path') if not self.clean or k else ('string',))
+                if n is None:
+                    continue
+                items.append('@[%s]@' % n)
+                src_refs.append((n, 'any_data'))
+                again = again or n
+            elif form == 'e':
+                fr = self.gen_frags(n_max=2)
+                items.append(frags_src(fr))
+                src_refs += [(n, 'any_data') for n in frags_names(fr)]
+            elif form == 'xp':
+                n = again if reuse else self.pick(('string',))
+                if n is None:
+                    continue
+                fr = [('s', n)] if rng.chance(0.6) else [('c', 'x/'), ('s', n)]
+                items.append('%s %s %s' % (rng.choice(['-existing-path', '-existing-file', '-existing-dir']),
+                                           rng.choice(['-rel-act', '-rel-tmp', '-rel-home']), frags_src(fr, quote=False)))
+                src_refs.append((n, 'str_only_restr'))
+            else:
+                n = again if reuse else self.pick(('path',))
+                if n is None:
+                    continue
+                items.append('-existing-path -rel %s x' % n)
+                src_refs.append((n, 'def_path_base'))
+        if not items:
+            items = ['a']
+        names = [n for n, _ in src_refs]
+        self.norun.add(name)
+        return dict(kind='def', name=name, tid='program', src='def program %s = %% echo %s' % (name, ' '.join(items)),
+                    val=('other', names), src_refs=src_refs)
+
+    def gen_actor(self):
+        """-> ([conf] line, act instruction): an actor whose interpreter has arguments with references; the references of
+        the [conf] line are references of the act phase"""
+        rng = self.rng
+        home = self.live.home
+        kind = rng.choice(['file', 'file', 'source'])
+        els = self.gen_arg_elements(1, 3)
+        if not els:
+            els = [('e', [('c', 'i')])]
+        args_src = ' '.join('@[%s]@' % e[1] if e[0] == 'r' else frags_src(e[1]) for e in els)
+        pg = None  # (`@ SYMBOL` is not reference syntax in an actor configuration: `@` would be a file name)
+        if pg is not None:
+            conf = 'actor = %s @ %s %s' % (kind, pg, args_src)
+        else:
+            conf = 'actor = %s %% /bin/sh %s/interp.sh %s' % (kind, home, args_src)
+        names = val_names(('lst', els))
+        if kind == 'file':
+            act_els = self.gen_arg_elements(0, 2)
+            act_src = ('probe.sh ' + ' '.join('@[%s]@' % e[1] if e[0] == 'r' else frags_src(e[1]) for e in act_els)).rstrip()
+            if pg is None:
+                allels = els + [('e', [('c', '/HOME/probe.sh')])] + act_els
+                return conf, dict(kind='use', src=act_src, vals=[('lst', allels)], act=True)
+            names = names + val_names(('lst', act_els))
+        else:
+            act_src = 'true'
+        src_refs = ([(pg, '(RVT [TProgram])')] if pg is not None else []) + [(n, 'any_data') for n in names]
+        return conf, dict(kind='use', src=act_src, vals=[], names=[n for n, _ in src_refs], src_refs=src_refs)
 
     def gen_act(self):
         rng = self.rng
@@ -477,13 +577,23 @@ def gen_program(rng, live, quick):
     # monotone assignment of phases to positions
     cuts = sorted(rng.below(n + 1) for _ in range(4))
     has_act = rng.chance(0.6)
+    with_actor = has_act and rng.chance(0.3)
+    conf = None
     phases = {p: [] for p in PHASES}
     stop_budget = 1 if rng.chance(0.3) else 0
     hardno = 0
+
+    def mk_act():
+        nonlocal conf
+        if with_actor:
+            conf, a = g.gen_actor()
+            return [a]
+        return [g.gen_act()]
+
     for pos in range(n):
         ph = ['setup', 'before-assert', 'assert', 'cleanup'][sum(1 for c in cuts[:3] if c <= pos)]
         if has_act and not phases['act'] and ph != 'setup':
-            phases['act'] = [g.gen_act()]
+            phases['act'] = mk_act()
         r = rng.below(100)
         if stop_budget and r < 12:
             stop_budget -= 1
@@ -502,8 +612,11 @@ def gen_program(rng, live, quick):
                 u = dict(kind='use', src='file {FILE} = %s' % frags_src(fr), vals=[('str', fr)], file=True)
             phases[ph].append(u)
     if has_act and not phases['act']:
-        phases['act'] = [g.gen_act()]
-    return finish_program(rng, phases)
+        phases['act'] = mk_act()
+    prog = finish_program(rng, phases)
+    if conf is not None:
+        prog['conf'] = (conf, rng.below(len(prog['sections']) + 1))
+    return prog
 
 
 def finish_program(rng, phases):
@@ -583,7 +696,12 @@ def program_text(prog):
     """-> (text, {line number: (phase, index in phase)})"""
     lines, where = [], {}
     counters = {p: 0 for p in PHASES}
-    for ph, lst in prog['sections']:
+    conf = prog.get('conf')
+    for k, (ph, lst) in enumerate(list(prog['sections']) + [(None, None)]):
+        if conf is not None and k == min(conf[1], len(prog['sections'])):
+            lines += ['[conf]', conf[0], '']
+        if ph is None:
+            break
         lines.append('[%s]' % ph)
         for ins in lst:
             where[len(lines) + 1] = (ph, counters[ph])
@@ -980,7 +1098,16 @@ def instr_term(ins, usages, live, nm, lenient=None):
         d = usages[0]
         vt = d.symbol_container.value_type.name
         if ins['val'][0] == 'other':
-            sdv = '(SOther %s)' % refs_term(list(d.references), nm)
+            live_refs = list(d.references)
+            if ins.get('src_refs') is not None and [r.name for r in live_refs] != [n for n, _ in ins['src_refs']]:
+                msg = 'definition of %s: source has %s, the parsed value reports %s' % (
+                    ins['name'], [n for n, _ in ins['src_refs']], [r.name for r in live_refs])
+                if lenient is None:
+                    raise RefMismatch(msg)
+                lenient.append(msg)
+                sdv = '(SOther %s)' % (clist(['(Ref %s %s)' % (nm(n), pl) for n, pl in ins['src_refs']]) if ins['src_refs'] else '(@nil ref)')
+            else:
+                sdv = '(SOther %s)' % refs_term(live_refs, nm)
         else:
             feed = RefFeed(d.references, nm, lenient)
             sdv = val_term(ins['val'], feed)
@@ -998,12 +1125,15 @@ def instr_term(ins, usages, live, nm, lenient=None):
         feed.done()
     else:
         vals = '(@nil sdv)'
-    if ins.get('cmdline') is not None and [u.name for u in usages] != ins['names']:
-        msg = 'command line: source has %s, the parsed instruction reports %s' % (ins['names'], [u.name for u in usages])
+    src_refs = ins.get('src_refs')
+    if src_refs is None and ins.get('cmdline') is not None:
+        src_refs = [(n, 'any_data') for n in ins['names']]
+    if src_refs is not None and [u.name for u in usages] != [n for n, _ in src_refs]:
+        msg = 'source has %s, the parsed instruction reports %s' % ([n for n, _ in src_refs], [u.name for u in usages])
         if lenient is None:
             raise RefMismatch(msg)
         lenient.append(msg)
-        return '(IUse %s %s)' % (clist(['(Ref %s any_data)' % nm(n) for n in ins['names']]) if ins['names'] else '(@nil ref)', vals)
+        return '(IUse %s %s)' % (clist(['(Ref %s %s)' % (nm(n), pl) for n, pl in src_refs]) if src_refs else '(@nil ref)', vals)
     return '(IUse %s %s)' % (refs_term(usages, nm), vals)
 
 
@@ -1032,6 +1162,7 @@ class Runner:
         with open(probe, 'w') as f:
             f.write('#!/bin/sh\nfor a in "$@"; do printf "[%s]\\n" "$a"; done\n')
         os.chmod(probe, 0o755)
+        shutil.copy(probe, os.path.join(self.home, 'interp.sh'))
         self.case = os.path.join(self.home, 't.case')
         self.mp = impl.main_program(self.sb)
         self.live = Live(self.home)
@@ -1319,7 +1450,7 @@ def search(ctx, res):
     runner = Runner(ctx.work)
     try:
         rng = common.Rng(ctx.seed * 7919 + 13)
-        progs = systematic_programs(rng, False) + special_programs(rng) + [gen_program(rng, runner.live, False) for _ in range(6000)]
+        progs = special_programs(rng) + [gen_program(rng, runner.live, False) for _ in range(1500)]
         _run(ctx, res2, rng, runner, progs)
     finally:
         runner.close()
